@@ -16,6 +16,7 @@ import (
 	"net/url"
 	"strconv"
 	"strings"
+	"time"
 
 	"github.com/golang/snappy"
 	"github.com/google/martian/v3/h2"
@@ -39,7 +40,9 @@ func (P) Rule() string {
 		"random cuts for long, zero-length frames without END_STREAM at every position (short streams) or sprinkled in - with END_STREAM on the last " +
 		"DATA frame, on a separate empty DATA frame or on trailers, in either or both directions; " +
 		"plus malformed streams (truncated, bad flag bytes, undecodable payloads, unknown encodings), non-gRPC streams, PRIORITY/RST/PUSH frames " +
-		"the uint32 prefix arithmetic at its boundaries; and cases with 2..4 streams (gRPC with their own encodings and non-gRPC, sequential in any " +
+		"the uint32 prefix arithmetic at its boundaries; compressed payloads in every valid form of their format the real libraries can write (multi-member gzip, " +
+		"header fields, stored blocks, sync flushes, several / repeated-header / skippable snappy chunks); a message of 64 KiB..4 MiB accumulated over 16-64 KiB frames " +
+		"followed by short ones with a DATA boundary at every offset -2..+8 around its end; and cases with 2..4 streams (gRPC with their own encodings and non-gRPC, sequential in any " +
 		"order or with interleaved frames) through the case's single factory value; " +
 		"distinct by hash of the op list; non-trivial when a gRPC byte stream carrying at least one message arrives in at least two DATA frames, " +
 		"or a non-gRPC stream carries at least one DATA frame"
@@ -92,6 +95,16 @@ func realDecode(enc string, p []byte) ([]byte, error) {
 // realEncode compresses as a gRPC peer would; level 0 = the library default (what the emitter
 // is expected to produce), other levels stand for senders with their own settings.
 func realEncode(enc string, p []byte, level int) []byte {
+	if level >= 100 {
+		if w := variantEncode(enc, p, level); w != nil {
+			if back, err := realDecode(enc, w); err == nil && bytes.Equal(back, p) {
+				core.Count("codec-variant:" + enc + ":" + strconv.Itoa(level))
+				return w
+			}
+			core.Count("codec-variant:rejected-by-reference-decoder:" + enc + ":" + strconv.Itoa(level))
+		}
+		level = 0
+	}
 	var buf bytes.Buffer
 	switch enc {
 	case "identity":
@@ -127,6 +140,116 @@ func realEncode(enc string, p []byte, level int) []byte {
 	}
 	return buf.Bytes()
 }
+
+// variantEncode: valid encodings of p that no single Writer.Close of the emitter's kind produces -
+// the part of each format's input space a gRPC peer (another library, another language) may use.
+// Every result is checked against the reference decoder by realEncode before it is used.
+//
+//	gzip    100 two members (RFC 1952: a file is a series of members; ISIZE covers the last only)
+//	        101 header with FEXTRA, FNAME, FCOMMENT and MTIME      102 stored blocks (level 0)
+//	        103 sync-flushed in the middle, then an EMPTY last member (ISIZE = 0)
+//	        104 three members, the first empty
+//	deflate 100 sync flush in the middle (00 00 ff ff marker, several blocks)   101 two flushes + full flush
+//	        102 stored blocks (level 0)                                103 Huffman-only with a flush
+//	snappy  100 three chunks (unbuffered writer)     101 two framed streams concatenated (stream identifier repeated)
+//	        102 a skippable chunk (type 0x80) after the stream identifier      103 a padding chunk (0xfe) at the end
+func variantEncode(enc string, p []byte, v int) []byte {
+	var buf bytes.Buffer
+	half := len(p) / 2
+	gz := func(q []byte, level int, hdr bool, flushAt int) {
+		w, _ := gzip.NewWriterLevel(&buf, level)
+		if hdr {
+			w.Name, w.Comment, w.Extra = "msg.bin", "a comment", []byte{'A', 'p', 2, 0, 1, 2}
+			w.ModTime = time.Unix(1700000000, 0)
+		}
+		if flushAt >= 0 && flushAt <= len(q) {
+			w.Write(q[:flushAt])
+			w.Flush()
+			q = q[flushAt:]
+		}
+		w.Write(q)
+		w.Close()
+	}
+	switch enc {
+	case "gzip":
+		switch v {
+		case 100:
+			gz(p[:half], gzip.DefaultCompression, false, -1)
+			gz(p[half:], gzip.BestSpeed, false, -1)
+		case 101:
+			gz(p, gzip.DefaultCompression, true, -1)
+		case 102:
+			gz(p, gzip.NoCompression, false, -1)
+		case 103:
+			gz(p, gzip.DefaultCompression, false, half)
+			gz(nil, gzip.DefaultCompression, false, -1)
+		case 104:
+			gz(nil, gzip.DefaultCompression, false, -1)
+			gz(p[:half], gzip.BestCompression, true, -1)
+			gz(p[half:], gzip.HuffmanOnly, false, -1)
+		default:
+			return nil
+		}
+	case "deflate":
+		level := map[int]int{100: flate.DefaultCompression, 101: flate.BestSpeed, 102: flate.NoCompression, 103: flate.HuffmanOnly}
+		l, ok := level[v]
+		if !ok {
+			return nil
+		}
+		w, _ := flate.NewWriter(&buf, l)
+		w.Write(p[:half])
+		w.Flush()
+		if v == 101 {
+			w.Write(p[half : half+(len(p)-half)/2])
+			w.Flush()
+			w.Write(p[half+(len(p)-half)/2:])
+			w.Flush()
+		} else {
+			w.Write(p[half:])
+		}
+		w.Close()
+	case "snappy":
+		switch v {
+		case 100:
+			w := snappy.NewWriter(&buf)
+			third := len(p) / 3
+			w.Write(p[:third])
+			w.Write(p[third : 2*third])
+			w.Write(p[2*third:])
+		case 101:
+			for _, q := range [][]byte{p[:half], p[half:]} {
+				w := snappy.NewBufferedWriter(&buf)
+				w.Write(q)
+				w.Close()
+			}
+		case 102, 103:
+			var inner bytes.Buffer
+			w := snappy.NewBufferedWriter(&inner)
+			w.Write(p)
+			w.Close()
+			b := inner.Bytes()
+			if len(b) < 10 {
+				return nil
+			}
+			if v == 102 {
+				buf.Write(b[:10])
+				buf.Write([]byte{0x80, 3, 0, 0, 'x', 'y', 'z'})
+				buf.Write(b[10:])
+			} else {
+				buf.Write(b)
+				buf.Write([]byte{0xfe, 2, 0, 0, 0, 0})
+			}
+		default:
+			return nil
+		}
+	default:
+		return nil
+	}
+	return buf.Bytes()
+}
+
+// senderLevels: how a peer may have compressed a message (see realEncode / variantEncode).
+var senderLevels = []int{0, 1, 9, -2, 100, 101, 102, 103, 104}
 
 // ---------------------------------------------------------------------------------------------
 // independent gRPC length-prefixed-message reader
